@@ -152,10 +152,11 @@ theorem httpRepl_ok (env : Env) (ps : HttpSt) (d : Bytes) (h : HttpInv ps) :
   obtain ⟨ps', h1, h2⟩ := httpParse_inv ps d h
   unfold httpRepl
   rw [h1]
-  refine ⟨ps', _, rfl, h2, ?_⟩
-  intro x hx
-  split at hx
-  · cases hx; exact httpReply_length_le env
-  · cases hx
+  by_cases hc : ps'.state = .content
+  · -- answered: the stored state is reset to the initial one
+    refine ⟨{}, some (httpReplyBytes env), by simp only [hc, if_true], httpInv_init, ?_⟩
+    intro x hx
+    cases hx; exact httpReply_length_le env
+  · exact ⟨ps', none, by simp only [hc, if_false], h2, fun x hx => by cases hx⟩
 
 end Masscanned.C01
